@@ -174,10 +174,12 @@ Definition pv_handle (k : knobs) (step : N) (keyed : bool) (stor : list (name * 
 
 (** HTTP requests *)
 Inductive transport := TPlain | TSession | TOtherKey.      (* TSession: framed under this connection's session keys *)
+(** the "ev" member of a write request: a JSON boolean, or any other non-null JSON value *)
+Inductive evreq := EvBool (b : bool) | EvOther.
 Inductive endpoint :=
 | EAccessories
 | ECharsGet (ids : list cid) (wellformed : bool)
-| ECharsPut (writes : list (cid * option gval * option bool))
+| ECharsPut (writes : list (cid * option gval * option evreq))
 | EPairingsAdd (n : name) (pk : N)
 | EPairingsRemove (n : name)
 | EPairingsOther
@@ -226,7 +228,7 @@ Definition apply_update (w : world) (i : cid) (v : gval) (o : origin) (chk : boo
 Definition remove_sub (l : list cid) (i : cid) : list cid := filter (fun j => negb (cid_eqb i j)) l.
 
 (** PUT /characteristics, entry by entry; returns world and the error entries of the response *)
-Fixpoint do_put (w : world) (c : connid) (ws : list (cid * option gval * option bool))
+Fixpoint do_put (w : world) (c : connid) (ws : list (cid * option gval * option evreq))
   : world * list (cid * option gval * option Z) :=
   match ws with
   | [] => (w, [])
@@ -244,7 +246,10 @@ Fixpoint do_put (w : world) (c : connid) (ws : list (cid * option gval * option 
           let w2 := match get_conn (conns w1) c with
                     | Some cn => mkWorld (store w1)
                         (set_conn (conns w1) c (mkConn (hc_open cn) (hc_crypt cn) (hc_next cn) (hc_ps cn) (hc_pv cn) (hc_pv_keyed cn)
-                                                 (if e then i :: remove_sub (hc_subs cn) i else remove_sub (hc_subs cn) i)))
+                                                 (match e with
+                                                  | EvBool true => i :: remove_sub (hc_subs cn) i
+                                                  | EvBool false => remove_sub (hc_subs cn) i
+                                                  | EvOther => hc_subs cn end)))
                         (chars w1) (outbox w1) (cblog w1)
                     | None => w1 end in
           do_put w2 c r
